@@ -314,6 +314,10 @@ fn check_poly<S: Fl>(orc: &mut Oracle, cx: &Ctxt, poly: &Poly<S>) {
     // every vertex within the allowance of the curve
     let dense = (4 * n + 64).min(4096);
     for i in 0..n {
+        if i == n - 1 && end_class != "generic" && d_end > 0.0 {
+            // the iterator's misplaced last point (known finding) is reported under `end`
+            continue;
+        }
         let v = pts[i + 1];
         let mut d = match &tend {
             Some(t) => dist(v, cx.curve.eval(t[i])),
